@@ -169,6 +169,14 @@ def install(reg):
                     raise Unsupported('split() on white space')
                 return split(o, a[0], a[1] if len(a) > 1 else k.get('maxsplit', -1))
             return do
+        if name == 'partition':
+            def part(I, o, a, k):
+                pieces = split(o, a[0], 1)
+                pieces = list(pieces) if isinstance(pieces, (list, tuple)) else None
+                if pieces is None or not 1 <= len(pieces) <= 2:
+                    raise Unsupported('partition on structured text')
+                return (pieces[0], a[0], pieces[1]) if len(pieces) == 2 else (pieces[0], '', '')
+            return part
         if name == 'rstrip':
             return lambda I, o, a, k: rstrip(o, a[0] if a else None)
         if name == 'lstrip':
